@@ -12,13 +12,14 @@ STAT_NAMES = ["completed_as_initiator", "response_refused", "completed_as_respon
               "rekey_after_165s_on_receive", "initiation_suppressed_by_5s_spacing", "initiation_sent",
               "ticks", "confirmation_with_packets_staged", "forged_under_next_index", "forged_under_current_or_previous_index",
               "forged_under_index_not_honoured", "replayed_message", "restart", "restart_with_unconfirmed_next",
-              "keepalive_sent_under_current", "rekey_after_120s_on_keepalive_only_send", "keepalive_with_no_or_expired_key"]
+              "keepalive_sent_under_current", "rekey_after_120s_on_keepalive_only_send", "keepalive_with_no_or_expired_key",
+              "handshake_attempt_abandoned", "abandoned_while_a_key_is_current"]
 
 CLAUSES = {1: "index-table-is-not-the-three-slots", 2: "sent-under-wrong-unconfirmed-or-expired-key",
            3: "responder-completion", 4: "initiator-completion-rotation", 5: "slots-changed-without-completion",
            6: "receive-clause", 7: "send-clause", 8: "slots-changed-on-send", 9: "slots-changed-on-initiate",
            10: "slots-changed-on-tick", 11: "output-on-tick", 12: "forged-message-not-inert", 13: "replayed-message-not-inert", 14: "keys-or-indices-survive-restart",
-           15: "send-clause(keepalive)", 16: "slots-changed-on-keepalive"}
+           15: "send-clause(keepalive)", 16: "slots-changed-on-keepalive", 17: "abandoned-attempt-not-inert"}
 
 
 class Prop:
@@ -32,7 +33,8 @@ class Prop:
             "retired key, fresh counter, corrupted tag / ciphertext / garbage / wrong key) and replayed ones, three scenarios "
             "in which REAL time (0.6 s, socket idle) carries a key from 179.5 s past 180 s before a message arrives, interface "
             "Down/Up (Peer.Stop+Start) at every slot configuration followed by probes under the keys just dropped, keepalive-only transmissions (SendKeepalive through the UAPI "
-            "persistent-keepalive switch-on), TUN packets, timer-style initiations, time moved with the "
+            "persistent-keepalive switch-on), the retransmit-handshake timer callback (retransmission, and giving up the "
+            "attempt, then using the surviving key past 120 s), TUN packets, timer-style initiations, time moved with the "
             "Verif shift hooks to 119/121/164/166/179/181 s of key age and across the 5 s handshake spacing; final "
             "sweep probing every session ever derived; after every event: datagrams emitted (which session opens "
             "them), initiation/response, TUN write, the three slots, the index table, the pending handshake index; "
@@ -93,7 +95,7 @@ class Prop:
             "Print sweep.\n"
             "Definition bad : list (N * N * N) := Eval vm_compute in\n"
             "  (match sweep with (Some _, Some _) => [] | _ => [(0, 2, 999999)] end).\nPrint bad.\n"
-            "Definition st : list N := repeat 0 25.\nPrint st.\n")
+            "Definition st : list N := repeat 0 27.\nPrint st.\n")
         return p
 
     def failures(self, outputs, files, cases):
@@ -109,10 +111,10 @@ class Prop:
         return res
 
     def stats(self, outputs):
-        tot = [0] * 25
+        tot = [0] * 27
         for o in outputs.values():
             v = vlib.parse_n_list(vlib.coq_value(o, "st"))
-            if len(v) == 25:
+            if len(v) == 27:
                 tot = [a + b for a, b in zip(tot, v)]
         return dict(zip(STAT_NAMES, tot))
 
